@@ -79,7 +79,7 @@ func stalledReceive(c *runner.Cfg, res *report.Result, logger *netx.RecLogger) {
 			res.Inconcl("stall %d: proxy: %v", idx, err)
 			return
 		}
-		px.ClientRcvBuf = 16 << 10
+		px.SetRcvBuf(16<<10, 0)
 		defer px.Close()
 		defer close(release)
 		conn, st := mpx.Connect(noCtx, px.Addr(), logger, Opts(window, 4096, 0, 0, false))
@@ -296,13 +296,14 @@ func laggingReceiver(c *runner.Cfg, res *report.Result, logger *netx.RecLogger) 
 			sent.Add(1)
 			return status.OK
 		})
-		srv, addr, err := StartServer(h, logger, Opts(sh.window, 0, 0, 0, false))
+		compress := idx%2 == 1 // large frames through the lz4 stream as well
+		srv, addr, err := StartServer(h, logger, Opts(sh.window, 0, 0, 0, compress))
 		if err != nil {
 			res.Inconcl("lag %d: %v", idx, err)
 			return
 		}
 		defer StopServer(srv)
-		conn, st := mpx.Connect(noCtx, addr, logger, Opts(sh.window, 0, 0, 0, false))
+		conn, st := mpx.Connect(noCtx, addr, logger, Opts(sh.window, 0, 0, 0, compress))
 		if !st.OK() {
 			res.Inconcl("lag %d: connect: %v", idx, st)
 			return
@@ -325,7 +326,7 @@ func laggingReceiver(c *runner.Cfg, res *report.Result, logger *netx.RecLogger) 
 			return sent.Load() == a && (a > 0 || sendSt.Load() != nil)
 		})
 		pushed := sent.Load()
-		w := map[string]any{"stream": "C03/lag", "index": idx, "window": sh.window, "message_size": sh.size, "messages": sh.count + 1, "sent_before_the_receiver_read_anything": pushed}
+		w := map[string]any{"stream": "C03/lag", "index": idx, "window": sh.window, "message_size": sh.size, "messages": sh.count + 1, "compression": compress, "sent_before_the_receiver_read_anything": pushed}
 		next := 0
 		done := make(chan string, 1)
 		go func() {
